@@ -892,7 +892,7 @@ theorem cacheLoad_spec (T : CTab) (H : List Nat) (c : Nat) (m : KeyMeta) (loader
       -- 1. revoked flag of the cached key
       have hi1 : RI T (.obj k) H { w with keys := setAt w.keys e.obj fun x => { x with revoked := (w.keys.getD k default).revoked } } := by
         have hacc := hi.acc e.obj ke hke
-        exact RIc.updKey hi e.obj (fun x => { x with revoked := (w.keys.getD k default).revoked }) ke hke (fun x => ⟨rfl, rfl, rfl⟩) ⟨rfl, fun _ h => h, hi.rawObj⟩
+        exact RIc.updKey hi e.obj (fun x => { x with revoked := (w.keys.getD k default).revoked }) ke hke (fun x => ⟨rfl, rfl, rfl, rfl⟩) ⟨rfl, fun _ _ h => h, hi.rawObj⟩
           (fun o' _ => ⟨rfl, Iff.rfl⟩) (fun _ => trivial) hacc rfl rfl rfl
       -- 2. close the freshly loaded copy
       have hcl := keyCloseRaw_spec T (hcount H) k _ hi1
@@ -1133,7 +1133,7 @@ theorem RIc.updDead {T : CTab} {raw : Raw} {h : Nat → Int} {w : World} (hi : R
     intro o; unfold cntOf
     show ((entCount T.dead (setAt w.caches c fun _ => kc') o : Nat) : Int) + h o = _
     rw [entCount_setAt_dead _ _ _ hd]
-  refine ⟨hi.len, hi.rawSec, hi.rawObj, hi.sec, hi.led, ?_, hi.hval, ?_, ?_, ?_⟩
+  refine ⟨hi.len, hi.rawSec, hi.rawObj, hi.sec, hi.mat, hi.led, ?_, hi.hval, ?_, ?_, ?_⟩
   · intro o k hk; rw [hcnt]; exact hi.acc o k hk
   · intro c' kc0 hc' hd'
     have hc'' : (setAt w.caches c fun _ => kc')[c']? = some kc0 := hc'
